@@ -262,7 +262,14 @@ def execute(case):
             ms = SMMapSet.read(case["text"])
     except (IndexError, ValueError, TypeError, AttributeError, ZeroDivisionError, KeyError) as e:
         return {"v": None, "exc": type(e).__name__ + ": " + str(e)[:120]}
-    return {"v": G.snap_set(ms)}
+    try:
+        return {"v": G.snap_set(ms)}
+    except ValueError as e:
+        if "non-finite" not in str(e) or case.get("dom", True):
+            raise
+        # a text outside the domain (e.g. no #OFFSET tag at all) may be read to a chart holding NaN times: it has no
+        # exact representation; such a case is outside every domain and is recorded as "no result"
+        return {"v": None, "exc": "NonFinite: the chart read holds a NaN time"}
 
 
 # ------------------------------------------------------------------ Coq side
